@@ -122,7 +122,11 @@ def gen(rng, tier):
         {'sel': 'ma.dfn0', 'param': 'x', 'kind': 'importable'},
         {'sel': 'ma.nothing', 'param': 'x', 'kind': 'no_attr'},
         {'sel': 'zz.dfn0', 'param': 'x', 'kind': 'no_symbol'},
-        {'sel': 'ma.dfn1', 'param': 'x', 'kind': 'importable'}])
+        {'sel': 'ma.dfn1', 'param': 'x', 'kind': 'importable'},
+        # Gin's own configurables, which every dynamic-registration file knows
+        # under the reserved name `gin`
+        {'sel': 'lbl/gin.macro', 'param': 'value', 'kind': 'builtin'},
+        {'sel': 'sh/gin.singleton', 'param': 'constructor', 'kind': 'builtin'}])
                      for _ in range(rng.randint(1, 4))],
            'skip': rng.choice([True, True, False]),
            'preregister': rng.random() < 0.4,
@@ -462,7 +466,9 @@ def run(case):
       lines.append('%s.%s = %d' % (s['sel'], s['param'], 100 + i))
       if must_fail:
         continue
-      if s['kind'] == 'importable':
+      if s['kind'] == 'builtin':
+        want['%s.%s' % (s['sel'].split('/')[1], s['param'])] = 100 + i
+      elif s['kind'] == 'importable':
         # the configurable's module is the import's bound path ('vsim_c15.ma')
         want['%s.%s' % (s['sel'].replace('ma.', 'vsim_c15.ma.'), s['param'])] = \
             100 + i
